@@ -64,6 +64,8 @@ def runtime_contract(qualname, args):
         res = fn(*call_args)
         if K.returns in ("gen", "Seq") and not isinstance(res, (list, tuple)):
             res = list(res)
+        if K.returns == "CellSetGen":
+            res = set(res)
     except Exception as exc:  # noqa: BLE001
         if K.raises is not None and K.raises(c, *args):
             want = K.raises_type
@@ -191,8 +193,9 @@ def replay_refuted(qualname, rec):
 # --------------------------------------------------------------------- main
 def run(ctx, prop):
     names = driver.contracts_for(prop)
+    structural = _structural(ctx, prop)
     if not names:
-        ctx.notes["deductive"] = "no deductive contract serves this property yet"
+        ctx.notes["deductive"] = {"functions": 0, "structural_obligations": structural} if structural else "no deductive contract serves this property yet"
         return
     quick = ctx.tier == "quick"
     # (1) the same contracts at run time on the real code
@@ -238,6 +241,27 @@ def run(ctx, prop):
         "D layer: termination is not verified",
     ]
     ctx.notes["deductive"] = {"functions": len(names), "obligations": n_all, "discharged": n_disc}
+
+
+def _structural(ctx, prop):
+    """Frame / memo / ownership / closed-world obligations (pyvc.frames): a refuted one is a
+    violation without an input (`no-failing-input-found`), an unrecognised shape is undecided."""
+    from . import frames
+
+    try:
+        recs = frames.run_for(prop)
+    except Exception as exc:  # noqa: BLE001 - analysis bug: undecided, never a violation
+        print(f"UNDECIDED structural analysis crashed: {type(exc).__name__}: {exc}", file=sys.stderr)
+        return 0
+    for r in recs:
+        if r["status"] == "refuted":
+            ctx.violation_noinput(r["name"], f"structural obligation refuted by pyvc.frames on the current AST: {r['note']}")
+        elif r["status"] == "undecided":
+            print(f"UNDECIDED obligation={r['name']} {r['note'][:200]}", file=sys.stderr)
+    ctx.add_obligations(recs)
+    if recs:
+        ctx.assumptions.append("structural obligations (pyvc.frames) are syntactic all-paths conditions over the package AST; aliasing is tracked flow-insensitively")
+    return len(recs)
 
 
 # replay of a D failure record: the input is (qualname, args)
